@@ -279,7 +279,7 @@ def add_motifs(rng, g, behaviour=False):
     tn = [t for t, _ in g.terminals]
     for _ in range(rng.choice([1, 1, 2, 3])):
         m = rng.choice(['nullable_chain', 'nullable_chain', 'nullable_chain', 'unit_chain', 'opt_list', 'shared_prefix', 'shared_prefix', 'eps_alts',
-                        'prefix_loop', 'prefix_loop'])
+                        'prefix_loop', 'prefix_loop', 'late_merge', 'late_merge'])
         new = []
         if m == 'nullable_chain':
             k = rng.randint(2, 5)
@@ -352,6 +352,26 @@ def add_motifs(rng, g, behaviour=False):
             new.append(_mk('struct', x, [(None, _wrap(rng, [('T', pp), ('N', y)]))], behaviour))
             new.append(_mk('enum', y, alts, behaviour))
             head = ('N', x)
+        elif m == 'late_merge':
+            # E -> l d E | d d d | l E r [| v]: one production appears at two dot positions in a state, the state discovered
+            # last still has successors, and lookaheads reach it only in the re-propagation phase (which state is last
+            # depends on the order of the terminal names, hence the random choice of names)
+            while len(tn) < 3:
+                t = 'Tk%d' % len(tn)
+                g.terminals.append((t, 'u32'))
+                tn.append(t)
+            l, d, r = rng.sample(tn, 3)
+            e = _fresh_nt(g, rng.choice(['Ex', 'Recv', 'Zq', 'Aq']))
+            alts = [('Recv', _wrap(rng, [('T', l), ('T', d), ('N', e)])),
+                    ('Hole', _wrap(rng, [('T', d)] * rng.choice([2, 3, 3, 4]))),
+                    ('Group', _wrap(rng, [('T', l), ('N', e), ('T', r)]))]
+            if rng.random() < 0.3:
+                others = [t for t in tn if t not in (l, d, r)]
+                if others:
+                    alts.append(('Var', _wrap(rng, [('T', rng.choice(others))])))
+            rng.shuffle(alts)
+            new.append(_mk('enum', e, alts, behaviour))
+            head = ('N', e)
         else:   # shared_prefix: A -> x y, B -> x z, C -> A | B, contexts p A and q C
             while len(tn) < 3:
                 t = 'Tk%d' % len(tn)
